@@ -99,3 +99,19 @@ package interp
 //@   ensures [local:g] continue-runs-freely: err == nil ==> g.mode == debugRun
 //@   ensures [local:g] unknown-routine-untouched: err != nil && g != nil ==> g.mode == old(g.mode)
 //@   canary err == nil
+
+// originalExecNode's visitor: every node not seen before, other than n itself, whose closure has the code
+// of exec becomes the answer — also when an earlier node already matched (the walk goes on: the answer is
+// the LAST match of the enclosing tree, which is where the debugger loop expects to be after a jump).
+//@ lit originalExecNode calls:Pointer (wn) (cont)
+//@   props C19
+//@   opt safety = off
+//@   opt opaque-calls = *
+//@   opt opaque-havoc = none
+//@   requires [assume] wn != nil && n != nil && seen != nil
+//@   let fresh0: !has(seen, wn.index)
+//@   let match: wn.index != n.index && wn.exec != nil && codeOf(wn.exec) == execAddr
+//@   ensures every-new-match-becomes-the-answer: fresh0 && match ==> originalNode == wn && !cont
+//@   ensures others-keep-the-answer-and-descend: !(fresh0 && match) ==> originalNode == old(originalNode) && cont
+//@   ensures node-marked-seen: has(seen, wn.index)
+//@   canary originalNode == old(originalNode)
